@@ -963,7 +963,7 @@ func (h *fsmHandler) connectLoop(ctx context.Context) net.Conn {
 				},
 			}
 
-			conn, err := d.DialContext(ctx, "tcp", net.JoinHostPort(addr, strconv.Itoa(port)))
+			conn, err := verifDial(ctx, &d, "tcp", net.JoinHostPort(addr, strconv.Itoa(port)))
 			select {
 			case <-ctx.Done():
 				fsm.logger.Debug("stop connect loop")
